@@ -242,4 +242,410 @@ theorem C09_foreign_types (tzs : List (Str × Int)) (required : Bool) (v : Val) 
     ∧ ((∀ t, v ≠ .tm t) → v ≠ .none → tmUnconvert required v = .error .type) := by
   cases v <;> simp [dtConvertWith, dtUnconvert, tmConvertWith, tmUnconvert]
 
+/-! ## rejecting -/
+
+/-- what `DateTime._convert_str` has accepted went through all of: regex, `int()`, `datetime(...)` validation -/
+theorem dtConvertStr_ok_inv (tzs : List (Str × Int)) (s : Str) (v : Val) (h : dtConvertStr tzs s = .ok v) :
+    ∃ g y mo d hh mi sec, dtRegex s = some g ∧ intOfAscii g.year = .ok y ∧ intOfAscii g.month = .ok mo
+      ∧ intOfAscii g.day = .ok d ∧ intOfAscii g.hour = .ok hh ∧ intOfAscii g.minute = .ok mi
+      ∧ intOfAscii g.second = .ok sec ∧ Cal.validDate y mo d = true ∧ hh < 24 ∧ mi < 60 ∧ sec < 60 := by
+  unfold dtConvertStr at h
+  cases hre : dtRegex s with
+  | none => simp [hre, bind, Except.bind] at h
+  | some g =>
+    simp only [hre, bind, Except.bind, pure, Except.pure] at h
+    cases ho : parseGmtOffset tzs g.offH g.offM g.name with
+    | error e => simp [ho] at h
+    | ok off =>
+      cases hy : intOfAscii g.year with
+      | error e => simp [ho, hy] at h
+      | ok y =>
+        cases hmo : intOfAscii g.month with
+        | error e => simp [ho, hy, hmo] at h
+        | ok mo =>
+          cases hd : intOfAscii g.day with
+          | error e => simp [ho, hy, hmo, hd] at h
+          | ok d =>
+            cases hh : intOfAscii g.hour with
+            | error e => simp [ho, hy, hmo, hd, hh] at h
+            | ok hr =>
+              cases hmi : intOfAscii g.minute with
+              | error e => simp [ho, hy, hmo, hd, hh, hmi] at h
+              | ok mi =>
+                cases hs : intOfAscii g.second with
+                | error e => simp [ho, hy, hmo, hd, hh, hmi, hs] at h
+                | ok sec =>
+                  cases hms : intOfAscii g.ms with
+                  | error e => simp [ho, hy, hmo, hd, hh, hmi, hs, hms] at h
+                  | ok ms =>
+                    simp only [ho, hy, hmo, hd, hh, hmi, hs, hms] at h
+                    by_cases hv : (Cal.validDate y mo d && validTime hr mi sec (1000 * ms)) = true
+                    · simp only [Bool.and_eq_true] at hv
+                      have hv2 := hv.2
+                      simp only [validTime, Bool.and_eq_true, decide_eq_true_eq] at hv2
+                      exact ⟨g, y, mo, d, hr, mi, sec, by first | rfl | assumption, by first | rfl | assumption, by first | rfl | assumption,
+                        by first | rfl | assumption, by first | rfl | assumption, by first | rfl | assumption,
+                        by first | rfl | assumption, hv.1, hv2.1.1.1, hv2.1.1.2, hv2.1.2⟩
+                    · simp [hv] at h
+
+/-- **C09_reject (date-time).** Whatever `DateTime.convert` accepts (one final line feed apart — known finding) begins
+    with eight ASCII digits `YYYYMMDD` forming a calendar-valid date (year 1..9999, month 1..12, day 1..days-in-month)
+    and then either ends or continues with six ASCII digits `HHMMSS` with HH < 24, MM < 60, SS < 60, after which it
+    ends or continues with `.` or `[`.  Hence: wrong length, letters, month 00/13, day 00/32, 31 April, 29 Feb of a
+    common year, hour 24, minute 60, second 60 are all rejected. -/
+theorem C09_reject (tzs : List (Str × Int)) (required : Bool) (s : Str) (v : Val)
+    (h : dtConvertWith tzs required (.str s) = .ok v) :
+    (s = stripFinalNewline s ∨ s = stripFinalNewline s ++ ['\n']) ∧
+    ∃ y m d rest, stripFinalNewline s = dateText y m d ++ rest ∧ Spec.Instant.validDate y m d = true ∧
+      (rest = [] ∨ ∃ hh mi sec rest', rest = todText hh mi sec ++ rest' ∧ validTod hh mi sec = true
+        ∧ (rest' = [] ∨ ∃ c t, rest' = c :: t ∧ (c = '.' ∨ c = '['))) := by
+  refine ⟨stripFinalNewline_cases s, ?_⟩
+  have h' : dtConvertStr tzs s = .ok v := h
+  obtain ⟨g, y, mo, d, hh, mi, sec, hre, hy, hmo, hd, hhh, hmi, hsec, hvd, b1, b2, b3⟩ := dtConvertStr_ok_inv tzs s v h'
+  obtain ⟨y1, y2, y3, y4, m1, m2, d1, d2c, r, hs, gy, gm, gd, hr⟩ := dtRegex_inv s g hre
+  rw [gy] at hy; rw [gm] at hmo; rw [gd] at hd
+  obtain ⟨_, ey⟩ := natOfAscii4_inv _ _ _ _ y (intOfAscii_some_ok _ _ hy)
+  obtain ⟨_, em⟩ := natOfAscii2_inv _ _ mo (intOfAscii_some_ok _ _ hmo)
+  obtain ⟨_, ed⟩ := natOfAscii2_inv _ _ d (intOfAscii_some_ok _ _ hd)
+  refine ⟨y, mo, d, r, ?_, by rw [spec_validDate_eq]; exact hvd, ?_⟩
+  · rw [hs, dateText, ← ey, ← em, ← ed]; rfl
+  · rcases hr with ⟨hr, _⟩ | ⟨h1, h2, mi1, mi2, s1, s2, r', hr, gh, gmi, gs, hshape⟩
+    · exact Or.inl hr
+    · right
+      rw [gh] at hhh; rw [gmi] at hmi; rw [gs] at hsec
+      obtain ⟨_, eh⟩ := natOfAscii2_inv _ _ hh (intOfAscii_some_ok _ _ hhh)
+      obtain ⟨_, emi⟩ := natOfAscii2_inv _ _ mi (intOfAscii_some_ok _ _ hmi)
+      obtain ⟨_, es⟩ := natOfAscii2_inv _ _ sec (intOfAscii_some_ok _ _ hsec)
+      refine ⟨hh, mi, sec, r', ?_, by simp [validTod, b1, b2, b3], hshape⟩
+      rw [hr, todText, ← eh, ← emi, ← es]; rfl
+
+/-! ## writing -/
+
+/-- naive ("wall clock") fields of a datetime as microseconds since ordinal 0 -/
+def localUs (d : DT) : Int := toUs d.year d.month d.day d.hour d.minute d.second d.us
+/-- 1000-01-01T00:00 and 10000-01-01T00:00 on that scale -/
+def us1000 : Int := 364878 * 86400000000
+def usEnd : Int := 3652060 * 86400000000
+
+theorem dtInstantUs_local (d : DT) (tz : Tz) (hv : dtValid d = true) (htz : d.tz = some tz) :
+    dtInstantUs d = some (localUs d - tz.offUs) := by
+  have hm : 1 ≤ d.month ∧ d.month ≤ 12 := by
+    simp only [dtValid, Bool.and_eq_true] at hv
+    have := validDate_bounds hv.1.1
+    omega
+  unfold dtInstantUs localUs toUs
+  rw [htz, Option.map_some, spec_ordinal_eq _ _ _ hm]
+
+/-- **C09_write (partial; text).** An aware, valid datetime whose offset is a whole number of minutes in
+    [-12:00, +14:00], whose zone name (if any) has no line feed and whose wall-clock time plus 500 µs lies in years
+    1000..9999 is written as the text of the notation `YYYYMMDDHHMMSS.XXX[±h(.mm)?(:name)?]` (structurally: `p.render`
+    with a date, a time of day, milliseconds and the canonical offset `canonOff`), and that text denotes the value's
+    instant rounded to the nearest millisecond. -/
+theorem C09_write_partial (required : Bool) (d : DT) (tz : Tz)
+    (hv : dtValid d = true) (htz : d.tz = some tz)
+    (hwhole : tz.offUs % 60000000 = 0)
+    (hoff : -720 ≤ tz.offUs / 60000000 ∧ tz.offUs / 60000000 ≤ 840)
+    (hname : ∀ n, tz.name = some n → '\n' ∉ n)
+    (hyear : us1000 ≤ localUs d + 500 ∧ localUs d + 500 < usEnd) :
+    ∃ (p : Parts) (us : Int), dtInstantUs d = some us
+      ∧ dtUnconvert required (.dt d) = .ok (.str p.render)
+      ∧ p.wf false = true
+      ∧ p.date.isSome = true ∧ p.tod.isSome = true ∧ p.ms.isSome = true
+      ∧ p.off = some (canonOff (tz.offUs / 60000000) tz.name)
+      ∧ p.instant = roundMs us := by
+  unfold us1000 usEnd at hyear
+  have hr : -usPerDay < tz.offUs ∧ tz.offUs < usPerDay := by unfold usPerDay; omega
+  obtain ⟨b, hb, v1, v2, v3⟩ := fromUs_spec (localUs d + 500) (by unfold usPerDay; omega)
+    (by unfold usPerDay maxOrdinal; omega)
+  have hv1 := v1
+  simp only [Cal.validDate, Bool.and_eq_true, decide_eq_true_eq] at hv1
+  obtain ⟨⟨⟨⟨⟨y1, y2⟩, m1⟩, m2⟩, d1⟩, d2'⟩ := hv1
+  have hv2 := v2
+  simp only [validTime, Bool.and_eq_true, decide_eq_true_eq] at hv2
+  obtain ⟨⟨⟨t1, t2⟩, t3⟩, t4⟩ := hv2
+  -- the year of the bumped value
+  have hN : 364878 ≤ ymd2ord b.year b.month b.day := by
+    unfold toUs at v3; omega
+  have hy1000 : 1000 ≤ b.year := by
+    have := ord2ymd_year_ge _ hN
+    rw [ord2ymd_ymd2ord b.year b.month b.day y1 ⟨m1, m2⟩ ⟨d1, d2'⟩] at this
+    exact this
+  have hoffmin := canonOff_minutesEast (tz.offUs / 60000000) tz.name (by omega)
+  refine ⟨⟨some (b.year, b.month, b.day), some (b.hour, b.minute, b.second), some (b.us / 1000),
+    some (canonOff (tz.offUs / 60000000) tz.name)⟩, localUs d - tz.offUs, dtInstantUs_local d tz hv htz, ?_, ?_,
+    rfl, rfl, rfl, rfl, ?_⟩
+  · have hfd : fieldsOfDT d = ⟨d.year, d.month, d.day, d.hour, d.minute, d.second, d.us⟩ := rfl
+    simp only [dtUnconvert, htz, utcoffset_some tz hr, bind, Except.bind, pure, Except.pure,
+      formatDatetime_eq false (fieldsOfDT d) b tz hr (by simpa [localUs, hfd] using hb)]
+    simp only [Bool.false_eq_true, if_false, strftimeYmdHMS, strftimeHMS, pyStrNat_year b.year hy1000 (by omega),
+      pad2_eq, pad3_eq, formatOffset_eq tz.offUs tz.name hr, Parts.render]
+    simp
+  · simp only [Parts.wf, Bool.not_false, Bool.true_and, spec_validDate_eq, v1, validTod, Bool.and_eq_true,
+      decide_eq_true_eq]
+    exact ⟨⟨⟨⟨t1, t2⟩, t3⟩, by omega⟩, canonOff_wf _ _ hoff hname⟩
+  · show instantOf b.year b.month b.day b.hour b.minute b.second (b.us / 1000)
+        (canonOff (tz.offUs / 60000000) tz.name).minutesEast = roundMs (localUs d - tz.offUs)
+    rw [hoffmin]
+    unfold instantOf roundMs
+    rw [spec_ordinal_eq _ _ _ ⟨m1, m2⟩]
+    unfold toUs at v3
+    omega
+
+/-- **C09_write (partial; write then read).** Under the hypotheses of `C09_write_partial`, if moreover the written
+    offset passes `readGuard` (i.e. the zone is not in (-1:00, 0) — known defect — and, for whole-hour zones, the
+    name does not begin with two digits — known defect) and the rounded instant lies in years 1..9999 (UTC), then
+    reading the written text back gives the UTC value denoting the original instant rounded to the millisecond. -/
+theorem C09_write_roundtrip_partial (tzs : List (Str × Int)) (required required' : Bool) (d : DT) (tz : Tz)
+    (hv : dtValid d = true) (htz : d.tz = some tz)
+    (hwhole : tz.offUs % 60000000 = 0)
+    (hoff : -720 ≤ tz.offUs / 60000000 ∧ tz.offUs / 60000000 ≤ 840)
+    (hname : ∀ n, tz.name = some n → '\n' ∉ n)
+    (hyear : us1000 ≤ localUs d + 500 ∧ localUs d + 500 < usEnd)
+    (hguard : readGuard (canonOff (tz.offUs / 60000000) tz.name) = true)
+    (hutc : minInstant ≤ roundMs (localUs d - tz.offUs) ∧ roundMs (localUs d - tz.offUs) < endInstant) :
+    ∃ (text : Str) (v : Val), dtUnconvert required (.dt d) = .ok (.str text)
+      ∧ dtConvertWith tzs required' (.str text) = .ok v
+      ∧ IsUtcOf v (1000 * roundMs (localUs d - tz.offUs))
+      ∧ dtInstantUs d = some (localUs d - tz.offUs) := by
+  obtain ⟨p, us, hus, hun, hwf, _, _, _, hpo, hpi⟩ :=
+    C09_write_partial required d tz hv htz hwhole hoff hname hyear
+  have hus' := dtInstantUs_local d tz hv htz
+  rw [hus'] at hus
+  injection hus with hus
+  subst hus
+  have hg : partsReadGuard p = true := by simp only [partsReadGuard, hpo]; exact hguard
+  rw [← hpi] at hutc
+  obtain ⟨v, hc, hi⟩ := C09_read_partial tzs required' p hwf hg hutc
+  exact ⟨p.render, v, hun, hc, by rw [← hpi]; exact hi, hus'⟩
+
+/-- the guards of the write theorems are satisfiable: 2024-02-29T23:59:59.999500-03:30 "NST" -/
+example : dtValid ⟨2024, 2, 29, 23, 59, 59, 999500, some ⟨-12600000000, some "NST".toList⟩⟩ = true
+    ∧ (-12600000000 : Int) % 60000000 = 0
+    ∧ us1000 ≤ localUs ⟨2024, 2, 29, 23, 59, 59, 999500, some ⟨-12600000000, some "NST".toList⟩⟩ + 500
+    ∧ localUs ⟨2024, 2, 29, 23, 59, 59, 999500, some ⟨-12600000000, some "NST".toList⟩⟩ + 500 < usEnd
+    ∧ readGuard (canonOff ((-12600000000 : Int) / 60000000) (some "NST".toList)) = true := by decide +kernel
+
+def C09_write_roundtrip_full : Prop :=
+  ∀ (tzs : List (Str × Int)) (d : DT) (tz : Tz), dtValid d = true → d.tz = some tz →
+    tz.offUs % 60000000 = 0 → (-720 ≤ tz.offUs / 60000000 ∧ tz.offUs / 60000000 ≤ 840) →
+    (∀ n, tz.name = some n → '\n' ∉ n) → (us1000 ≤ localUs d + 500 ∧ localUs d + 500 < usEnd) →
+    (minInstant ≤ roundMs (localUs d - tz.offUs) ∧ roundMs (localUs d - tz.offUs) < endInstant) →
+    ∃ (text : Str) (v : Val), dtUnconvert false (.dt d) = .ok (.str text)
+      ∧ dtConvertWith tzs false (.str text) = .ok v ∧ IsUtcOf v (1000 * roundMs (localUs d - tz.offUs))
+
+def writeWitness : DT := ⟨2020, 1, 1, 12, 0, 0, 0, some ⟨-1800000000, none⟩⟩
+
+/-- the library writes noon at -00:30 as `20200101120000.000[-0.30]` and reads that back as 11:30 UTC (not 12:30) -/
+theorem writeWitness_roundtrip :
+    dtUnconvert false (.dt writeWitness) = .ok (.str "20200101120000.000[-0.30]".toList)
+    ∧ dtConvertWith [] false (.str "20200101120000.000[-0.30]".toList)
+        = .ok (.dt ⟨2020, 1, 1, 11, 30, 0, 0, some utcTz⟩) :=
+  ⟨eq_of_okIs (by decide +kernel), eq_of_okIs (by decide +kernel)⟩
+
+theorem C09_write_roundtrip_full_false : ¬ C09_write_roundtrip_full := by
+  intro h
+  obtain ⟨text, v, h1, h2, r, hr, _, _, hi⟩ := h [] writeWitness ⟨-1800000000, none⟩ (by decide +kernel) rfl
+    (by decide +kernel) (by decide +kernel) (by intro n hn; simp at hn) (by decide +kernel) (by decide +kernel)
+  rw [writeWitness_roundtrip.1] at h1
+  injection h1 with h1
+  injection h1 with h1
+  subst h1
+  rw [writeWitness_roundtrip.2] at h2
+  injection h2 with h2
+  subst h2
+  injection hr with hr
+  subst hr
+  revert hi
+  decide +kernel
+
+/-! ## Time: rejecting and writing -/
+
+theorem tmConvertStr_ok_inv (tzs : List (Str × Int)) (s : Str) (v : Val) (h : tmConvertStr tzs s = .ok v) :
+    ∃ g hh mi sec, tmRegex s = some g ∧ intOfAscii g.hour = .ok hh ∧ intOfAscii g.minute = .ok mi
+      ∧ intOfAscii g.second = .ok sec ∧ hh < 24 ∧ mi < 60 ∧ sec < 60 := by
+  unfold tmConvertStr at h
+  cases hre : tmRegex s with
+  | none => simp [hre, bind, Except.bind] at h
+  | some g =>
+    simp only [hre, bind, Except.bind, pure, Except.pure] at h
+    cases ho : parseGmtOffset tzs g.offH g.offM g.name with
+    | error e => simp [ho] at h
+    | ok off =>
+      cases hh : intOfAscii g.hour with
+      | error e => simp [ho, hh] at h
+      | ok hr =>
+        cases hmi : intOfAscii g.minute with
+        | error e => simp [ho, hh, hmi] at h
+        | ok mi =>
+          cases hs : intOfAscii g.second with
+          | error e => simp [ho, hh, hmi, hs] at h
+          | ok sec =>
+            cases hms : intOfAscii g.ms with
+            | error e => simp [ho, hh, hmi, hs, hms] at h
+            | ok ms =>
+              simp only [ho, hh, hmi, hs, hms] at h
+              by_cases hv : validTime hr mi sec (1000 * ms) = true
+              · simp only [validTime, Bool.and_eq_true, decide_eq_true_eq] at hv
+                exact ⟨g, hr, mi, sec, by first | rfl | assumption, by first | rfl | assumption,
+                  by first | rfl | assumption, by first | rfl | assumption, hv.1.1.1, hv.1.1.2, hv.1.2⟩
+              · simp [hv] at h
+
+/-- **C09_time_reject.** Whatever `Time.convert` accepts (one final line feed apart) begins with six ASCII digits
+    `HHMMSS`, HH < 24, MM < 60, SS < 60, and then ends or continues with `.` or `[`. -/
+theorem C09_time_reject (tzs : List (Str × Int)) (required : Bool) (s : Str) (v : Val)
+    (h : tmConvertWith tzs required (.str s) = .ok v) :
+    (s = stripFinalNewline s ∨ s = stripFinalNewline s ++ ['\n']) ∧
+    ∃ hh mi sec rest', stripFinalNewline s = todText hh mi sec ++ rest' ∧ validTod hh mi sec = true
+        ∧ (rest' = [] ∨ ∃ c t, rest' = c :: t ∧ (c = '.' ∨ c = '[')) := by
+  refine ⟨stripFinalNewline_cases s, ?_⟩
+  have h' : tmConvertStr tzs s = .ok v := h
+  obtain ⟨g, hh, mi, sec, hre, hhh, hmi, hsec, b1, b2, b3⟩ := tmConvertStr_ok_inv tzs s v h'
+  unfold tmRegex at hre
+  obtain ⟨h1, h2, mi1, mi2, s1, s2, r', hr, _, _, _, gh, gmi, gs, hshape⟩ := timePart_inv _ _ _ hre
+  rw [gh] at hhh; rw [gmi] at hmi; rw [gs] at hsec
+  obtain ⟨_, eh⟩ := natOfAscii2_inv _ _ hh (intOfAscii_some_ok _ _ hhh)
+  obtain ⟨_, emi⟩ := natOfAscii2_inv _ _ mi (intOfAscii_some_ok _ _ hmi)
+  obtain ⟨_, es⟩ := natOfAscii2_inv _ _ sec (intOfAscii_some_ok _ _ hsec)
+  refine ⟨hh, mi, sec, r', ?_, by simp [validTod, b1, b2, b3], hshape⟩
+  rw [hr, todText, ← eh, ← emi, ← es]; rfl
+
+/-- time of day of a `time` value in microseconds -/
+def todUs (t : TM) : Int := ((t.hour * 3600 + t.minute * 60 + t.second : Nat) : Int) * 1000000 + (t.us : Nat)
+
+theorem tmInstantUs_local (t : TM) (tz : Tz) (htz : t.tz = some tz) :
+    tmInstantUs t = some ((todUs t - tz.offUs) % 86400000000) := by
+  unfold tmInstantUs todUs
+  rw [htz, Option.map_some]
+
+/-- **C09_time_write (partial; text).** An aware, valid `time` whose offset is a whole number of minutes in
+    [-12:00, +14:00] and whose zone name has no line feed is written as `HHMMSS.XXX[±h(.mm)?(:name)?]`, denoting the
+    value's instant (mod 24 h) rounded to the nearest millisecond (mod 24 h). -/
+theorem C09_time_write_partial (required : Bool) (t : TM) (tz : Tz)
+    (hv : tmValid t = true) (htz : t.tz = some tz)
+    (hwhole : tz.offUs % 60000000 = 0)
+    (hoff : -720 ≤ tz.offUs / 60000000 ∧ tz.offUs / 60000000 ≤ 840)
+    (hname : ∀ n, tz.name = some n → '\n' ∉ n) :
+    ∃ (p : Parts), tmUnconvert required (.tm t) = .ok (.str p.render)
+      ∧ p.wf true = true
+      ∧ p.date = none ∧ p.tod.isSome = true ∧ p.ms.isSome = true
+      ∧ p.off = some (canonOff (tz.offUs / 60000000) tz.name)
+      ∧ p.instant = roundMs ((todUs t - tz.offUs) % 86400000000) % 86400000 := by
+  have hr : -usPerDay < tz.offUs ∧ tz.offUs < usPerDay := by unfold usPerDay; omega
+  simp only [tmValid, validTod, Bool.and_eq_true, decide_eq_true_eq] at hv
+  obtain ⟨⟨⟨a1, a2⟩, a3⟩, a4⟩ := hv
+  have hN : ymd2ord 1999 6 8 = 729913 := by decide
+  have hT : toUs 1999 6 8 t.hour t.minute t.second t.us = 729913 * 86400000000 + todUs t := by
+    unfold toUs todUs; rw [hN]; omega
+  have htod : 0 ≤ todUs t ∧ todUs t < 86400000000 := by unfold todUs; omega
+  obtain ⟨b, hb, v1, v2, v3⟩ := fromUs_spec (toUs 1999 6 8 t.hour t.minute t.second t.us + 500)
+    (by rw [hT]; unfold usPerDay; omega) (by rw [hT]; unfold usPerDay maxOrdinal; omega)
+  have hv2 := v2
+  simp only [validTime, Bool.and_eq_true, decide_eq_true_eq] at hv2
+  obtain ⟨⟨⟨t1, t2⟩, t3⟩, t4⟩ := hv2
+  have hoffmin := canonOff_minutesEast (tz.offUs / 60000000) tz.name (by omega)
+  refine ⟨⟨none, some (b.hour, b.minute, b.second), some (b.us / 1000),
+    some (canonOff (tz.offUs / 60000000) tz.name)⟩, ?_, ?_, rfl, rfl, rfl, rfl, ?_⟩
+  · simp only [tmUnconvert, htz, utcoffset_some tz hr, bind, Except.bind, pure, Except.pure,
+      formatDatetime_eq true ⟨1999, 6, 8, t.hour, t.minute, t.second, t.us⟩ b tz hr hb]
+    simp only [if_true, strftimeHMS, pad2_eq, pad3_eq, formatOffset_eq tz.offUs tz.name hr, Parts.render]
+    simp
+  · simp only [Parts.wf, Bool.true_and, validTod, Bool.and_eq_true, decide_eq_true_eq]
+    exact ⟨⟨⟨⟨t1, t2⟩, t3⟩, by omega⟩, canonOff_wf _ _ hoff hname⟩
+  · show todInstantOf b.hour b.minute b.second (b.us / 1000)
+        (canonOff (tz.offUs / 60000000) tz.name).minutesEast
+      = roundMs ((todUs t - tz.offUs) % 86400000000) % 86400000
+    rw [hoffmin]
+    unfold todInstantOf roundMs
+    rw [hT] at v3
+    unfold toUs at v3
+    generalize ymd2ord b.year b.month b.day = N at v3
+    generalize todUs t = U at *
+    omega
+
+/-- **C09_time_write (partial; write then read).** -/
+theorem C09_time_write_roundtrip_partial (tzs : List (Str × Int)) (required required' : Bool) (t : TM) (tz : Tz)
+    (hv : tmValid t = true) (htz : t.tz = some tz)
+    (hwhole : tz.offUs % 60000000 = 0)
+    (hoff : -720 ≤ tz.offUs / 60000000 ∧ tz.offUs / 60000000 ≤ 840)
+    (hname : ∀ n, tz.name = some n → '\n' ∉ n)
+    (hguard : readGuard (canonOff (tz.offUs / 60000000) tz.name) = true) :
+    ∃ (text : Str) (v : Val), tmUnconvert required (.tm t) = .ok (.str text)
+      ∧ tmConvertWith tzs required' (.str text) = .ok v
+      ∧ IsUtcTimeOf v (1000 * (roundMs ((todUs t - tz.offUs) % 86400000000) % 86400000))
+      ∧ tmInstantUs t = some ((todUs t - tz.offUs) % 86400000000) := by
+  obtain ⟨p, hun, hwf, _, _, _, hpo, hpi⟩ := C09_time_write_partial required t tz hv htz hwhole hoff hname
+  have hg : partsReadGuard p = true := by simp only [partsReadGuard, hpo]; exact hguard
+  obtain ⟨v, hc, hi⟩ := C09_time_read_partial tzs required' p hwf hg
+  exact ⟨p.render, v, hun, hc, by rw [← hpi]; exact hi, tmInstantUs_local t tz htz⟩
+
+/-- the guards of the time write theorems are satisfiable: 23:59:59.999500+05:45 "NPT" -/
+example : tmValid ⟨23, 59, 59, 999500, some ⟨20700000000, some "NPT".toList⟩⟩ = true
+    ∧ (20700000000 : Int) % 60000000 = 0
+    ∧ -720 ≤ (20700000000 : Int) / 60000000 ∧ (20700000000 : Int) / 60000000 ≤ 840
+    ∧ readGuard (canonOff ((20700000000 : Int) / 60000000) (some "NPT".toList)) = true := by decide +kernel
+
+/-- a short text is rejected (corollary of `C09_reject`; e.g. `2020010`, `202001011200` is handled by the shape clause) -/
+theorem C09_reject_short (tzs : List (Str × Int)) (required : Bool) (s : Str) (hlen : s.length < 8) (v : Val) :
+    dtConvertWith tzs required (.str s) ≠ .ok v := by
+  intro h
+  obtain ⟨hs, y, m, d, rest, he, _, _⟩ := C09_reject tzs required s v h
+  have h8 : (dateText y m d).length = 8 := by simp [dateText, d4, d2]
+  have hl : (stripFinalNewline s).length ≥ 8 := by rw [he, List.length_append]; omega
+  rcases hs with hs | hs
+  · rw [← hs] at hl; omega
+  · have := congrArg List.length hs
+    rw [List.length_append] at this
+    simp at this
+    omega
+
+/-! ### the full-strength rejection statement is false of the current code -/
+
+/-- "texts outside the notation are rejected", literally -/
+def C09_reject_full : Prop :=
+  ∀ (tzs : List (Str × Int)) (s : Str) (v : Val), dtConvertWith tzs false (.str s) = .ok v → InNotation false s
+
+/-- no text of the notation ends in a line feed -/
+theorem render_last (t : Bool) (p : Parts) (hwf : p.wf t = true) :
+    ∃ pre c, c ≠ '\n' ∧ p.render = pre ++ [c] := by
+  obtain ⟨date, tod, ms, off⟩ := p
+  simp only [Parts.wf, Bool.and_eq_true] at hwf
+  obtain ⟨⟨⟨hd, ht⟩, _⟩, _⟩ := hwf
+  cases tod with
+  | none =>
+    simp only [Bool.and_eq_true, Option.isNone_iff_eq_none] at ht
+    obtain ⟨⟨_, rfl⟩, rfl⟩ := ht
+    cases date with
+    | none => simp_all
+    | some ymd =>
+      obtain ⟨y, m, d⟩ := ymd
+      exact ⟨d4 y ++ d2 m ++ [dch (d / 10)], dch d, dch_ne_newline d, by simp [Parts.render, d2]⟩
+  | some hms =>
+    obtain ⟨h, mi, sec⟩ := hms
+    cases date with
+    | none =>
+      obtain ⟨pre', c', hc', he⟩ := snoc_of_tail ms off (d2 h ++ d2 mi ++ [dch (sec / 10)]) (dch sec) (dch_ne_newline sec)
+      refine ⟨pre', c', hc', ?_⟩
+      rw [← he]
+      cases ms <;> cases off <;> simp [Parts.render, msText, offText, d2]
+    | some ymd =>
+      obtain ⟨y, m, d⟩ := ymd
+      obtain ⟨pre', c', hc', he⟩ := snoc_of_tail ms off (d4 y ++ d2 m ++ d2 d ++ d2 h ++ d2 mi ++ [dch (sec / 10)])
+        (dch sec) (dch_ne_newline sec)
+      refine ⟨pre', c', hc', ?_⟩
+      rw [← he]
+      cases ms <;> cases off <;> simp [Parts.render, msText, offText, d2]
+
+/-- `"20200101\n"` (nine characters) is accepted as 2020-01-01T00:00Z although it is outside the notation
+    (`$` matches before a final line feed) -/
+theorem C09_reject_full_false : ¬ C09_reject_full := by
+  intro h
+  have hacc : dtConvertWith [] false (.str "20200101\n".toList)
+      = .ok (.dt ⟨2020, 1, 1, 0, 0, 0, 0, some utcTz⟩) := eq_of_okIs (by decide +kernel)
+  obtain ⟨p, hwf, hren⟩ := h [] _ _ hacc
+  obtain ⟨pre, c, hc, he⟩ := render_last false p hwf
+  rw [he] at hren
+  have := congrArg List.getLast? hren
+  simp at this
+  exact hc this
+
 end Ofx.DateTime
